@@ -11,6 +11,10 @@ CLAIMED = {
    text="TLC checks the refinement StaticImpl (the code's counter/cache machine) => StaticAbs (run lengths as the property states them) and the adaptive replacement rule => Abs for all histories up to the bound; TLC-generated call histories (exhaustive short, random long) are replayed on real sampler objects and every recorded history is validated step by step against the Abs machine by TLC; the random variant's keep frequencies are judged by TLC against a binomial acceptance region.",
    note="Trusted: TLC; identification of point sets by value (fresh random draws are distinct a.s.); z=6 acceptance region for the random variant. Bounded: intervals {1..5,7,inf}, histories <= 24 calls, loss vectors over 0..4 with n <= 5, ratios {0,1/4,1/2,3/4,1}.",
    technique="TLA+ refinement checking (TLC) + TLC-generated behaviours replayed into the code + TLC trace validation", ref="5 C15"),
+ "C13": dict(
+   text="UserFun.tla states the calling convention (received = declared parameters bound by name, defaults for absent optional ones, rejection of missing required names, the partial-evaluation law, frame conditions); TLC model-checks the code-shaped wrapper heap (aliasing, deep copy) against it and enumerates every signature up to 4 parameters with every argument subset; each is executed on real UserFunction / DomainUserFunction objects with a recording function and TLC validates every recorded step.",
+   note="Trusted: TLC; the generated recording function (locals() + position-weighted sum). Bounded: <= 4 parameters from a pool of 4 names (+1 foreign name), histories <= 12 operations on <= 6 wrappers.",
+   technique="TLA+ model checking of the wrapper heap + exhaustive signature enumeration by TLC + TLC trace validation", ref="5 C13"),
 }
 PENDING_REASON = "check not built yet in this round (design in DESIGN.md section 5); not claimed"
 
